@@ -39,12 +39,15 @@ META = dict(
               "bit-exact model/implementation correspondence by vm_compute + direct oracle on real solver runs",
     level_text=("Detectors (collapse_at/as/weight/position) = {candidates meeting the tolerance test} minus mask, idempotent under their own "
                 "output, masks grow by exactly what was applied, nothing is reported twice: theorems for all histories, windows, tolerances "
-                "and masks. impose_at makes x_i = target exactly and is framed; impose_as makes x_i = x_j exactly only when tools.connected "
-                "yields disjoint groups (refuted in general: known finding); composition with other collapses preserves a relation only when "
-                "the other transformation does not write its coordinates (refuted in general: known finding); the _Solve collapse loop "
-                "terminates within |unmasked candidates| rounds for any inner solver.  Solver runs are checked by oracle."),
-    level_note=("collapse_cost oracle-only (partial); solver integration judged by oracle on generated runs, the Coq part is the abstract "
-                "composition/termination argument; three genuine defects of /repo are listed as known findings."),
+                "and masks. impose_at makes x_i = target exactly and is framed; the tie stage of impose_as makes x_i = x_j exactly for every "
+                "pair (tools.connected as repaired by fix 8baa3a7: groups always disjoint, full theorem); composition with other collapses "
+                "preserves a relation only when the transformations applied after it do not write its coordinates (proved; refuted in "
+                "general: known finding); CollapseAt-only runs: every applied relation holds after any number of rounds; the _Solve "
+                "collapse loop terminates within |unmasked candidates| rounds for any inner solver.  Solver runs are checked by oracle."),
+    level_note=("collapse_cost oracle-only (partial); impose_as offset stage and solver integration are covered by correspondence / oracle "
+                "on generated runs, the Coq part is the abstract composition/termination argument; four genuine defects of /repo are "
+                "listed as known findings (list target subset, relation overwritten by another collapse, offset=True imposed as +1, "
+                "where-mask with inner lists)."),
     design_ref="5/C11")
 
 INF = float("inf")
@@ -198,6 +201,9 @@ def _cyclic(pairs):
 def _gen_impose(rng):
     n = rng.choice([1, 2, 3, 4, 5, 6])
     x = [rng.choice(GRID) + i for i in range(n)]
+    if rng.random() < 0.2:   # the real AbstractSolver.__collapse_constraints for CollapseAt(target=list) on an index subset
+        idx = sorted(set(rng.randrange(n) for _ in range(rng.choice([1, 1, 2, 3, n]))))
+        return dict(kind="impose", which="collapse", x=x, idx=idx, target=[rng.choice(GRID) + 20 + j for j in range(n)])
     if rng.random() < 0.5:
         idx = sorted(set(rng.randrange(n + 2) for _ in range(rng.choice([0, 1, 2, 3]))))
         r = rng.random()
@@ -554,6 +560,20 @@ def _run_impose(case):
     from mystic.constraints import impose_at, impose_as
     x = np.array(case["x"], dtype=float)
     out = {}
+    if case["which"] == "collapse":
+        from mystic.solvers import NelderMeadSimplexSolver
+        from mystic.termination import CollapseAt, state
+        s = NelderMeadSimplexSolver(len(x))
+        term = CollapseAt(list(case["target"]), 0.0, 1)
+        s.SetTermination(term)
+        idx = set(np.int64(i) for i in case["idx"])
+        out["order"] = [int(i) for i in idx]
+        try:
+            cons = s._AbstractSolver__collapse_constraints(state(term), {term.__doc__: idx})
+            out["y"] = [float(v) for v in cons(x)]
+        except Exception as e:
+            out["y"] = _err(e)
+        return out
     if case["which"] == "at":
         idx = set(case["idx"])
         out["order"] = [int(i) for i in idx]
@@ -913,17 +933,26 @@ def oracle(case, obs):
     elif k == "impose":
         y = obs["y"]
         x = case["x"]
-        if case["which"] == "at":
-            tg = case["target"]
-            kept = [i for i in obs["order"] if i < len(x)]
+        if case["which"] == "collapse":
             if isinstance(y, dict):
-                if not (isinstance(tg, list) and len(tg) not in (len(kept), 1)):
-                    out.append(_fail("impose_at_exact", "constraints.impose_at", y["error"], obs))
+                out.append(_fail("after_collapse_relation_exact", "abstract_solver.Collapse", y["error"], obs))
             else:
-                for pos, i in enumerate(kept):
-                    t = (tg[pos] if len(tg) == len(kept) else tg[0]) if isinstance(tg, list) else tg
-                    if y[i] != t:
-                        out.append(_fail("impose_at_exact", "constraints.impose_at", "not-at-target", obs)); break
+                if any(y[i] != case["target"][i] for i in case["idx"]):
+                    out.append(_fail("after_collapse_relation_exact", "abstract_solver.Collapse", "not-at-own-target", obs))
+                if any(y[i] != x[i] for i in range(len(x)) if i not in case["idx"]) or len(y) != len(x):
+                    out.append(_fail("impose_at_frame", "abstract_solver.Collapse", "other-coordinate-moved", obs))
+        elif case["which"] == "at":
+            tg = case["target"]
+            if isinstance(tg, list):   # target k belongs to index k (iteration order of the set); out-of-range pairs are dropped
+                at = [(i, t) for i, t in zip(obs["order"], tg) if i < len(x)]
+            else:
+                at = [(i, tg) for i in obs["order"] if i < len(x)]
+            if isinstance(y, dict):
+                out.append(_fail("impose_at_exact", "constraints.impose_at", y["error"], obs))
+            else:
+                if any(y[i] != t for i, t in at):
+                    out.append(_fail("impose_at_exact", "constraints.impose_at", "not-at-target", obs))
+                kept = [i for i, t in at]
                 if any(y[i] != x[i] for i in range(len(x)) if i not in kept) or len(y) != len(x):
                     out.append(_fail("impose_at_frame", "constraints.impose_at", "other-coordinate-moved", obs))
         else:
@@ -937,8 +966,7 @@ def oracle(case, obs):
                 inrange = all(p[0] < n and p[1] < n for p in case["pairs"])
                 bad = [p for p in case["pairs"] if inrange and y[p[0]] != y[p[1]]]
                 if bad:
-                    pat = "unmerged-groups" if not _groups_disjoint(obs["order"]) else "not-equal"
-                    out.append(_fail("impose_as_exact", "tools.connected", pat, dict(bad=bad, obs=obs)))
+                    out.append(_fail("impose_as_exact", "constraints.impose_as", "not-equal", dict(bad=bad, obs=obs)))
                 wr = set(p[1] for p in case["pairs"]) | set(p[0] for p in case["pairs"])
                 if any(y[i] != x[i] for i in range(n) if i not in wr):
                     out.append(_fail("impose_as_frame", "constraints.impose_as", "other-coordinate-moved", obs))
@@ -959,7 +987,8 @@ def oracle(case, obs):
 
 
 def _groups_disjoint(order):
-    """tools.connected re-implemented independently: are the resulting groups pairwise disjoint?"""
+    """the PRE-REPAIR tools.connected (no merging) re-implemented: would its groups have been pairwise disjoint?
+    Only used to tag inputs on which the old code failed (chained pairs)."""
     groups = []
     for i, j in order:
         for g in groups:
@@ -979,9 +1008,6 @@ def _oracle_solve(case, obs):
     out = []
     solver = {"NM": "NelderMeadSimplexSolver", "PW": "PowellDirectionalSolver", "DE": "DifferentialEvolutionSolver"}[case["solver"]]
     if obs.get("exception"):
-        lt = [t for t in case["terms"] if t[0] == "at" and isinstance(t[1], list)]
-        if lt and obs["exception"] == "ValueError" and "shape mismatch" in obs.get("exception_msg", ""):
-            return [_fail("solve_terminates", "abstract_solver.Collapse", "list-target-proper-subset", obs["exception_msg"])]
         return [_fail("solve_terminates", solver, obs["exception"], obs.get("exception_msg"))]
     if obs.get("timeout") or not obs["finished"]:
         return [_fail("solve_terminates", solver, "timeout", dict(evals=obs["evals"]))]
@@ -1025,12 +1051,11 @@ def _oracle_solve(case, obs):
                     bad = next((q for q, p in enumerate(pts) if p[i] != tt), None)
                     if bad is not None:
                         final_only = bad == len(pts) - 1
-                        if isinstance(t, list) and len(c["what"]) != len(t):
-                            # impose_at(subset, FULL target list) raised inside the constraints; with strict ranges the
-                            # ValueError is swallowed by constraints.and_ and the collapse silently does nothing
-                            site, pat = "abstract_solver.Collapse", "list-target-proper-subset"
-                        elif i in others:
+                        if i in others:
                             site, pat = "abstract_solver.Collapse", "relation-overwritten-by-other-collapse"
+                        elif final_only and obs["best"] == e["best"]:
+                            # nothing evaluated after the collapse beat the best-so-far, which predates the collapse
+                            site, pat = solver, "best-predates-collapse"
                         else:
                             site, pat = (solver, "final-solution-off-target") if final_only else (solver, "evaluated-off-target")
                         out.append(_fail("after_collapse_relation_exact", site, pat, dict(index=i, target=tt, got=pts[bad][i], where="final" if final_only else bad, event=ei)))
@@ -1049,8 +1074,8 @@ def _oracle_solve(case, obs):
                             site, pat = "abstract_solver.Collapse", "offset-true-imposed-as-plus-one"
                         elif i in others or j in others:
                             site, pat = "abstract_solver.Collapse", "relation-overwritten-by-other-collapse"
-                        elif not _groups_disjoint(c["order"]):
-                            site, pat = "tools.connected", "unmerged-groups"
+                        elif final_only and obs["best"] == e["best"]:
+                            site, pat = solver, "best-predates-collapse"
                         else:
                             site, pat = (solver, "final-solution-not-tied") if final_only else (solver, "evaluated-not-tied")
                         out.append(_fail("after_collapse_relation_exact", site, pat, dict(pair=[i, j], point=pts[bad], where="final" if final_only else bad, event=ei)))
@@ -1253,7 +1278,10 @@ def coq_terms(case, obs):
     elif k == "impose":
         y = obs["y"]
         x = _fl(case["x"])
-        if case["which"] == "at":
+        if case["which"] == "collapse":
+            if not isinstance(y, dict):
+                T.append("res_eq flist_eq (collapse_at_list NumF %s %s %s) (Ok %s)" % (_nl(obs["order"]), _fl(case["target"]), x, _fl(y)))
+        elif case["which"] == "at":
             tg = case["target"]
             tgc = "(@AtList NumF %s)" % _fl(tg) if isinstance(tg, list) else "(@AtScalar NumF %s)" % flit(tg)
             call = "impose_at NumF %s %s %s" % (_nl(obs["order"]), tgc, x)
@@ -1333,8 +1361,8 @@ def classify(case, obs):
         tags.append("impose:" + case["which"])
         y = obs.get("y")
         tags.append("impose-result:" + ("error" if isinstance(y, dict) else "ok"))
-        if case["which"] == "as":
-            tags.append("groups:" + ("disjoint" if _groups_disjoint(obs.get("order", [])) else "overlapping"))
+        if case["which"] == "as" and "order" in obs:
+            tags.append("chained-pairs:%s" % (not _groups_disjoint(obs.get("order", []))))
             tags.append("offset:%s" % case["offset"])
         nt = len(case["x"]) >= 2
     elif k == "solve":
